@@ -4,6 +4,10 @@ import os, sys, io, contextlib, traceback
 import fw
 
 CONTIG, CONTIG_LEN = 'chr1', 200000
+# API cases: the reads carry IN_CONTIGS' header; the consensus is requested for target files whose headers
+# order the contigs differently, have an extra contig, or lack contigs the molecule does not use
+IN_CONTIGS = ['chr1', 'chr2', 'chr10', 'chrX']
+TARGET_CONTIGS = [['chr1', 'chr2', 'chr10', 'chrX'], ['chrM', 'chr10', 'chrX', 'chr2', 'chr1'], ['chr2', 'chr10']]
 
 
 class Ref:
@@ -15,7 +19,7 @@ class Ref:
         return self.seq[start:end]
 
 
-def mk_read(hdr, name, r, sample, umi, bc, mx, is_r2, paired):
+def mk_read(hdr, name, r, sample, umi, bc, mx, is_r2, paired, contig=CONTIG):
     import pysam
     from array import array
     a = pysam.AlignedSegment(hdr)
@@ -25,11 +29,11 @@ def mk_read(hdr, name, r, sample, umi, bc, mx, is_r2, paired):
     a.flag = 0
     if r.get('unmapped'):
         a.is_unmapped = True
-        a.reference_id = 0
+        a.reference_id = hdr.get_tid(contig)
         a.reference_start = r['pos']
         a.mapping_quality = 0
     else:
-        a.reference_id = 0
+        a.reference_id = hdr.get_tid(contig)
         a.reference_start = r['pos']
         a.cigartuples = [tuple(x) for x in r['cigar']]
         a.mapping_quality = r['mapq']
@@ -77,9 +81,10 @@ def rec_info(rec, refseq):
 
 def run_api(cases, scratch):
     import pysam
-    hdr = pysam.AlignmentHeader.from_dict({'HD': {'VN': '1.6'}, 'SQ': [{'SN': CONTIG, 'LN': CONTIG_LEN}]})
-    path = os.path.join(scratch, 'api.bam')
-    out = pysam.AlignmentFile(path, 'wb', header=hdr)
+    mkh = lambda names: pysam.AlignmentHeader.from_dict({'HD': {'VN': '1.6'}, 'SQ': [{'SN': n, 'LN': CONTIG_LEN} for n in names]})
+    hdr = mkh(IN_CONTIGS)
+    paths = [os.path.join(scratch, 'api%d.bam' % t) for t in range(len(TARGET_CONTIGS))]
+    outs = [pysam.AlignmentFile(pth, 'wb', header=mkh(names)) for pth, names in zip(paths, TARGET_CONTIGS)]
     res = []
     refs = {}
     for ci, c in enumerate(cases):
@@ -89,6 +94,8 @@ def run_api(cases, scratch):
             MolC, FragC, fargs, mx = classes(c['klass'])
             ref = Ref(c['ref'])
             refs[ci] = c['ref']
+            contig = c.get('contig', CONTIG)
+            out = outs[c.get('target', 0)]
             frags, pairs = [], []
             for fi, f in enumerate(c['fragments']):
                 rs = []
@@ -97,7 +104,7 @@ def run_api(cases, scratch):
                     if r is None:
                         rs.append(None)
                         continue
-                    a = mk_read(hdr, 'c%d_f%d' % (ci, fi), r, c['sample'], f.get('umi', c['umi']), c['bc'], mx, k == 1, paired)
+                    a = mk_read(hdr, 'c%d_f%d' % (ci, fi), r, c['sample'], f.get('umi', c['umi']), c['bc'], mx, k == 1, paired, contig)
                     rs.append(a)
                     pairs.append([list(x) for x in a.get_aligned_pairs(matches_only=True)])
                 frags.append(FragC(rs, **fargs))
@@ -135,20 +142,22 @@ def run_api(cases, scratch):
         except BaseException as e:
             info['error'] = '%s: %s' % (type(e).__name__, e)
             info['trace'] = traceback.format_exc()[-1500:]
-    out.close()
+    for out in outs:
+        out.close()
     for info in res:
         info['records'] = []
         info['source'] = []
-    with pysam.AlignmentFile(path, 'rb', check_sq=False) as f:
-        for rec in f:
-            n = rec.query_name
-            if n.startswith('cons'):
-                ci = int(n[4:])
-                res[ci]['records'].append(rec_info(rec, refs[ci]))
-            else:
-                ci = int(n[1:].split('_')[0])
-                res[ci]['source'].append({'name': n, 'flag': rec.flag, 'start': rec.reference_start,
-                                          'dup': rec.is_duplicate})
+    for path in paths:
+        with pysam.AlignmentFile(path, 'rb', check_sq=False) as f:
+            for rec in f:
+                n = rec.query_name
+                if n.startswith('cons'):
+                    ci = int(n[4:])
+                    res[ci]['records'].append(rec_info(rec, refs[ci]))
+                else:
+                    ci = int(n[1:].split('_')[0])
+                    res[ci]['source'].append({'name': n, 'flag': rec.flag, 'start': rec.reference_start,
+                                              'dup': rec.is_duplicate})
     return res
 
 
